@@ -19,7 +19,7 @@ struct FrameT {
     int gen = 1;
     int trunc = -1;      // -1: none, else length 0..MTU
     int pad_to_mtu = 0;  // 1: extend the frame with filler up to MTU (everything a count could index is "received")
-    int pad_fill = 0;    // filler: 0 = 0x5C bytes, 1 = 0x5C with a partial copy of the receiving station's own address in the incomplete slot at the very end of the buffer, 2 = zero bytes, 3 = the own address over and over
+    int pad_fill = 0;    // filler: 0 = 0x5C bytes, 1 = 0x5C with a partial copy of the receiving station's own address in the incomplete slot at the very end of the buffer, 2 = zero bytes, 3 = the own address over and over, 4 = (Hello template) a chain of zero-length properties up to the end of the buffer whose last two octets open a host-id property
     int ethertype = -1;  // -1: LLTD's 0x88D9; else this value (VLAN tag 0x8100, 0x88A8, IPv4, byte-swapped LLTD ...): frames the daemons' filters may or may not have kept away
     std::vector<std::pair<int, int>> mut;   // (position, value)
     Bytes raw;
@@ -59,7 +59,13 @@ static inline Bytes c01_frame(size_t mtu, const Mac &own, const FrameT &t) {
         case 7: f = mk_simple(dst, eth, (uint8_t)t.tos, (uint8_t)t.opcode, dst, real, (uint16_t)t.seq); break;
         default: f = t.raw; break;
     }
-    if (t.pad_to_mtu && f.size() < mtu) {
+    if (t.pad_to_mtu && t.tmpl == 6 && t.pad_fill == 4 && f.size() + 4 <= mtu) {
+        // a Hello whose property list runs right up to the last octet of the buffer: zero-length properties, and the header of a host-id property (01 06) as the final two octets
+        if (f.back() == 0x00) f.pop_back();   // the template's end marker
+        if ((mtu - f.size()) % 2) { f.push_back(0x7E); f.push_back(0x01); f.push_back(0xAA); }
+        while (f.size() + 2 < mtu) { f.push_back(0x7E); f.push_back(0x00); }
+        f.push_back(0x01); f.push_back(0x06);
+    } else if (t.pad_to_mtu && f.size() < mtu) {
         size_t from = f.size();
         f.resize(mtu, t.pad_fill == 2 ? 0x00 : 0x5C);
         if (t.pad_fill == 1) { size_t tail = (mtu - from) % 6; for (size_t i = mtu - tail; i < mtu; i++) f[i] = own.b[i - (mtu - tail)]; }   // only the partial slot at the very end
